@@ -129,6 +129,13 @@ def run(ctx):
     refusal_rule(ctx, fv)
     entry_rule(ctx)
     closed_list_rule(ctx, fv)
+    # "presets change only the delimiter, -H only adds the column line": the header line is built with the same delimiter
+    from . import c03, c05
+    c03.header_line_rule(dep(ctx, "C15", "C03"))
+    fb, fm = ctx.view(c05.BATCH), ctx.view(c05.MMAP)
+    if fb is not None and fm is not None:
+        c05.header_rule(dep(ctx, "C15", "C05"), fb, fm)
+        c05.row_agreement(dep(ctx, "C15", "C05"), fb, fm)
 
 
 # ---------------------------------------------------------------- R
